@@ -373,6 +373,19 @@ def run_unit(unit, tier):
                     mixed = ('CDI' * blen)[:blen]
                     one(build_hunk(mixed, None, so, so, False, None, b'y') +
                         [b'tail'], True, True)
+        # every byte value as (first byte of) a line payload, and UTF-16/32
+        # shaped payloads: the parser looks at the first byte only
+        for b in range(256):
+            if b in (0x0A,):
+                continue
+            for pl in (bytes([b]), b'w' + bytes([b]) + b'z',
+                       bytes([b]) * 3):
+                for ig in (False, True):
+                    one(build_hunk('CDIC', None, 3, 3, True, None, pl), ig,
+                        True)
+        for pl in (b'', b'\x00x\x00', b'x\x00\x00\x00', b'\xe2\x80\xa8',
+                   b'\xc2\x85', b'\xff\xfe', b'@@ -1 +1 @@', b'-- a', b'++ b'):
+            one(build_hunk('CDIIC', 2, 3, 3, False, b'ctx', pl), False, True)
         from mc.alphabets import BOUNDARY_SIZES_Q
         # bodies at buffer-boundary and larger line counts (lock files,
         # generated sources): one-sided, context-only and mixed hunks
